@@ -51,7 +51,7 @@ func dev(args []string) {
 	units := eng.Units(*prop, *filter)
 	var obls []*vc.Obligation
 	for _, u := range units {
-		for _, ud := range u.Undecided {
+		for _, ud := range append(append([]string{}, u.Undecided...), u.UndecidedGoals...) {
 			fmt.Printf("UNDECIDED %s: %s\n", u.Name, ud)
 		}
 		for _, o := range u.Obls {
